@@ -263,7 +263,7 @@ fn ascii_text(len: usize) -> String {
     (0..len).map(|i| (b'a' + (i % 26) as u8) as char).collect()
 }
 
-const PATCH_LINES: [&[u8]; 6] = [b"a\n", b"$NetBSD$\n", b"x $NetBSD: y $ z\n", b"$NetBS\n", b"\n", b"D$ tail"];
+const PATCH_LINES: [&[u8]; 8] = [b"a\n", b"$NetBSD$\n", b"x $NetBSD: y $ z\n", b"$NetBS\n", b"\n", b"D$ tail", b"${V} $x $NetBSD: y $\r\n", b"caf\xe9 \r\n"];
 
 fn patch_inputs(max_lines: usize) -> Vec<Vec<u8>> {
     let mut out = vec![];
